@@ -132,3 +132,28 @@ def run(ctx):
     reuse_stream(ctx, "SeededBinarySegmentation(CUSUM)", lambda: SeededBinarySegmentation(min_segment_length=2),
                  ctx.n(6, 40), tuned_make=lambda: SeededBinarySegmentation(min_segment_length=2, threshold_scale=None, level=0.1))
     reuse_stream(ctx, "SeededBinarySegmentation(L2Cost)", lambda: SeededBinarySegmentation(change_score=L2Cost(), min_segment_length=3), ctx.n(3, 20))
+    # ---- built-in score on multi-column data: the scores table against a brute-force evaluation of the DEFINITION ----
+    import numpy as _np
+    import pandas as _pd
+    from harness import direct as _direct
+    for it in range(ctx.n(12, 100)):
+        p = ctx.rng.choice([1, 2, 3])
+        n = ctx.rng.randint(8, 20)
+        m = ctx.rng.choice([1, 2, 3])
+        if 2 * m > n:
+            continue
+        Xn = _np.asarray([[ctx.rng.randint(-4, 4) + 20.0 * j for j in range(p)] for _ in range(n)], dtype=float)
+        Xn[ctx.rng.randint(1, n - 1):] += ctx.rng.choice([6.0, -8.0])
+        d = SeededBinarySegmentation(min_segment_length=m, max_interval_length=ctx.rng.choice([2 * m, 2 * m + 3, 30]), threshold_scale=0.5).fit(_pd.DataFrame(Xn))
+        d.predict(_pd.DataFrame(Xn))
+        ctx.case({"real-sbs": it, "X": Xn.tolist(), "m": m}, nontrivial=p > 1)
+        for _, row in d.scores.iterrows():
+            s, e = int(row["start"]), int(row["end"])
+            vals = [(float(_np.sum(_direct.cusum_direct(Xn, s, k, e))), k) for k in range(s + m, e - m + 1)]
+            want = max(v for v, _ in vals)
+            got = float(row["score"])
+            if abs(got - want) > 1e-7 * (abs(got) + abs(want) + 1):
+                ctx.violation(f"SeededBinarySegmentation(CUSUM), p={p}: interval [{s},{e}) has score {got}, the maximum of the CUSUM (definition from the rows, summed over "
+                              f"columns) over the admissible splits is {want}", {"n": n, "p": p, "m": m, "X": Xn.tolist(), "interval": [s, e], "score": got, "definition": want},
+                              {"what": "scores-table-vs-definition", "multi_column": p > 1})
+                break
